@@ -186,7 +186,7 @@ def run_lines(case, target, runner, second=None):
 
 
 def stage_lines(report, tier, rng, dist, runner):
-    n_cases = {('serial', 'quick'): 2, ('serial', 'thorough'): 6, ('l2', 'quick'): 1, ('l2', 'thorough'): 3}[(runner, tier)]
+    n_cases = {('serial', 'quick'): 2, ('serial', 'thorough'): 4, ('l2', 'quick'): 1, ('l2', 'thorough'): 3}[(runner, tier)]
     runs = 0
     for ci in range(n_cases):
         case = S.gen_case(rng, runner=runner, max_n=4, p_fail=0.2, allow_dups=False)
@@ -218,13 +218,13 @@ def stage_lines(report, tier, rng, dist, runner):
         if (runner == 'serial' and tier == 'thorough') or (runner == 'l2' and tier == 'thorough' and ci == 0):
             targets = list(range(total))          # every line event of the run (serial; the wide case under the process runner)
         else:
-            k = {('serial', 'quick'): 90, ('l2', 'quick'): 40, ('l2', 'thorough'): 400}[(runner, tier)]
+            k = {('serial', 'quick'): 90, ('l2', 'quick'): 40, ('l2', 'thorough'): 200}[(runner, tier)]
             if runner == 'serial':
                 extra = rng.sample(save_path, min(len(save_path), 60))
             else:
                 rest = [i for i in exec_lines if i not in critical]
                 extra = (critical if (ci == 0 or tier == 'thorough') else rng.sample(critical, min(len(critical), 40))) + \
-                    rng.sample(rest, min(len(rest), 40 if tier == 'quick' else 400))
+                    rng.sample(rest, min(len(rest), 40 if tier == 'quick' else 150))
                 dist['l2_critical_line_events_targeted'] += len(critical) if (ci == 0 or tier == 'thorough') else min(len(critical), 40)
             targets = sorted(set(rng.sample(range(total), min(total, k)) + extra))
         for tgt in targets:
@@ -255,9 +255,9 @@ def stage_lines(report, tier, rng, dist, runner):
         # two interrupts at line level under the process runner: the second one lands in the handler of the first (cancel,
         # the draining loop, wait, the executor) a few line events later; whatever the pair, KeyboardInterrupt and no hang
         if runner == 'l2':
-            firsts = (critical if tier == 'thorough' else rng.sample(critical, min(len(critical), 30)))
+            firsts = rng.sample(critical, min(len(critical), 30 if tier == 'quick' else 80))
             for tgt in firsts:
-                for k2 in rng.sample(range(0, 90), 2 if tier == 'quick' else 6):
+                for k2 in rng.sample(range(0, 90), 2 if tier == 'quick' else 4):
                     obs, inj = run_lines(case, tgt, runner, second=k2)
                     runs += 1
                     dist[f'l2_double_line_fired={inj.fired}'] += 1
